@@ -114,6 +114,11 @@ def moments(ctx: Context) -> None:
             continue
         name = vec.id
         evs = reaching_events(g, name, rn)
+        # `vec = np.nan_to_num(vec[, copy=True])` re-binds the name to the sanitised vector: it is the sanitising step, not an allocation or a store
+        def _is_sanitising(a) -> bool:
+            v_ = getattr(a, "value", None)
+            return isinstance(a, (ast.Assign, ast.AnnAssign)) and isinstance(v_, ast.Call) and (dotted(v_.func) or "").split(".")[-1] == "nan_to_num" and v_.args and src(v_.args[0]) == name
+        evs = [(nd, k, a) for nd, k, a in evs if not _is_sanitising(a)]
         allocs = [a for _, k, a in evs if k == "assign"]
         stores = [(nd, a) for nd, k, a in evs if k == "sub"]
         fixed = len(allocs) == 1 and isinstance(allocs[0].value, ast.Call) and (dotted(allocs[0].value.func) or "").split(".")[-1] in ("zeros", "empty", "full") \
